@@ -71,6 +71,12 @@ pub fn header_sets() -> Vec<(&'static str, Vec<(&'static str, &'static str)>)> {
         ("name-with-space", vec![("x bad name", "v")]),
         ("value-with-crlf", vec![("x-crlf", "a\r\nb: c")]),
         ("empty-value", vec![("x-empty", "")]),
+        // what the shell reports about the length is a header like any other: the body is what it is
+        ("content-length-understated", vec![("content-length", "2")]),
+        ("content-length-1500", vec![("Content-Length", "1500"), ("content-type", "text/plain; charset=utf-8")]),
+        ("content-length-overstated", vec![("content-length", "1000000")]),
+        ("content-length-u64-max", vec![("content-length", "18446744073709551615")]),
+        ("content-length-not-a-number", vec![("content-length", "12abc")]),
     ]
 }
 
@@ -106,6 +112,9 @@ pub fn bodies() -> Vec<(&'static str, Vec<u8>)> {
         ("json-ok-trailing-non-utf8", b"{\"a\":1,\"s\":\"x\"}\n\xff".to_vec()),
         ("json-bom-ok", b"\xEF\xBB\xBF{\"a\":1,\"s\":\"x\"}".to_vec()),
         ("json-bom-ok-then-document", b"\xEF\xBB\xBF{\"a\":1,\"s\":\"x\"}{\"a\":2,\"s\":\"y\"}".to_vec()),
+        // longer than any announced or pre-sized length in the header lists
+        ("ascii-4000", (0..4000u32).map(|i| b'a' + (i % 26) as u8).collect()),
+        ("json-ok-4000", format!("{{\"a\":1,\"s\":\"{}\"}}", "x".repeat(4000)).into_bytes()),
     ]
 }
 
@@ -821,7 +830,7 @@ fn self_checks(al: &Alphabets) -> Value {
     // the reference must accept trailing whitespace only
     for (name, body) in &al.bodies[CORE_BODIES..] {
         let ok = serde_json::from_slice::<Payload>(body).is_ok();
-        let want_ok = matches!(*name, "json-ok-trailing-whitespace" | "json-ok-leading-whitespace");
+        let want_ok = matches!(*name, "json-ok-trailing-whitespace" | "json-ok-leading-whitespace" | "json-ok-4000");
         if ok != want_ok {
             mc_kit::machinery_error(&format!("reference decoder on {name}: ok={ok}, alphabet says {want_ok}"));
         }
